@@ -300,7 +300,7 @@ fn compile(dir: &str, rlib: &str, deps: &str, p: &Probe) -> Result<Verdict, Stri
 fn unprobed_methods(known: &BTreeSet<String>) -> Vec<String> {
     let mut missing = vec![];
     for f in ["src/lru/raw.rs", "src/lru/segmented.rs", "src/lru/two_queue.rs", "src/lru/adaptive.rs", "src/lfu/wtinylfu.rs"] {
-        let text = match std::fs::read_to_string(format!("/repo/{}", f)) {
+        let text = match std::fs::read_to_string(format!("{}/{}", crate::check::repo_dir(), f)) {
             Ok(t) => t,
             Err(_) => continue,
         };
@@ -335,7 +335,7 @@ pub fn run(_tier: Tier) -> EngineReport {
         }
     };
     let deps = std::path::Path::new(&rlib).parent().map(|p| p.to_string_lossy().to_string()).unwrap_or_default();
-    let dir = format!("{}/target/probes-{}", crate::check::VERIF, std::process::id());
+    let dir = format!("{}/target/probes-{}", crate::check::verif_dir(), std::process::id());
     let _ = std::fs::create_dir_all(&dir);
     let mut probes = borrow_probes();
     probes.extend(marker_probes());
@@ -405,7 +405,7 @@ pub fn run(_tier: Tier) -> EngineReport {
 pub fn replay_case(case: &serde_json::Value) -> Vec<Finding> {
     let rlib = std::env::var("MC_CACHES_RLIB").unwrap_or_default();
     let deps = std::path::Path::new(&rlib).parent().map(|p| p.to_string_lossy().to_string()).unwrap_or_default();
-    let dir = format!("{}/target/probes-replay-{}", crate::check::VERIF, std::process::id());
+    let dir = format!("{}/target/probes-replay-{}", crate::check::verif_dir(), std::process::id());
     let _ = std::fs::create_dir_all(&dir);
     let p = Probe { id: "replay".into(), row: case["row"].as_str().unwrap_or("").to_string(), pattern: "replay", misuse: true, src: case["source"].as_str().unwrap_or("").to_string() };
     let v = compile(&dir, &rlib, &deps, &p);
